@@ -58,6 +58,11 @@ func main() {
 		}
 		return
 	}
+	if *prop == "all" {
+		// development aid (refactoring / mutant matrices): one load, every property
+		abs, _ := filepath.Abs(*repo)
+		os.Exit(runAll(*tier, abs, *verif, *verbose))
+	}
 	fn, ok := registry[*prop]
 	if !ok {
 		fmt.Fprintf(os.Stderr, "unknown property %q\n", *prop)
@@ -99,4 +104,39 @@ func run(fn propFn, prop, tier, repo, verif string, seed int, only string, verbo
 		}
 	}()
 	return c.finish(verif, seed, start, loadNote)
+}
+
+// runAll runs every registered property on one loaded program; exit 1 if any property reports.
+func runAll(tier, repo, verif string, verbose bool) int {
+	start := time.Now()
+	prog, err := loadProgram(repo, nil, "")
+	if err != nil {
+		fmt.Printf("checker: cannot load %s: %v\n", repo, err)
+		return 1
+	}
+	var ids []string
+	for id := range registry {
+		ids = append(ids, id)
+	}
+	sort.Strings(ids)
+	rc := 0
+	for _, id := range ids {
+		c := newCtx(prog, id, tier)
+		c.Verbose = verbose
+		func() {
+			defer func() {
+				if r := recover(); r != nil {
+					c.CheckerFail("panic", fmt.Sprintf("%v\n%s", r, debug.Stack()))
+				}
+			}()
+			registry[id](c)
+			for _, x := range extras[id] {
+				x(c)
+			}
+		}()
+		if c.finish(verif, 0, start, "shared load") != 0 {
+			rc = 1
+		}
+	}
+	return rc
 }
